@@ -148,15 +148,15 @@ theorem pushState_frame (s : St) (st : ConnState) (p : Picker) :
     (pushState s st p).1.passSerial = s.passSerial ∧ (pushState s st p).1.numTF = s.numTF := by
   unfold pushState forcePush; split <;> simp
 
-theorem schedule_eq (s : St) : schedule s = { s with timer := hasNext s } := by
-  have e : hasNext { s with timer := false } = hasNext s := rfl
-  cases h : hasNext s <;> simp only [schedule, cancelTimer, e, h] <;> rfl
+theorem schedule_eq (s : St) : schedule s = { cancelTimer s with timer := hasNext s } := by
+  have e : hasNext (cancelTimer s) = hasNext s := rfl
+  cases h : hasNext s <;> simp only [schedule, e, h] <;> rfl
 
 theorem schedule_frame (s : St) :
     (schedule s).subConns = s.subConns ∧ (schedule s).scSerial = s.scSerial ∧ (schedule s).addrs = s.addrs ∧
     (schedule s).idx = s.idx ∧ (schedule s).passLog = s.passLog ∧ (schedule s).state = s.state ∧
     (schedule s).picker = s.picker ∧ (schedule s).firstPass = s.firstPass ∧ (schedule s).sticky = s.sticky := by
-  rw [schedule_eq]; simp
+  rw [schedule_eq]; simp [cancelTimer]
 
 theorem increment_frame (s : St) :
     (increment s).1.subConns = s.subConns ∧ (increment s).1.scSerial = s.scSerial ∧ (increment s).1.addrs = s.addrs ∧
@@ -680,17 +680,30 @@ theorem exitIdle_post (s : St) (h : Good s) :
     exact ⟨g, readyOK_append _ _ _ (readyOK_pushState_other _ _ _ _ (by decide) (by intro X h; cases h)) r⟩
   · exact ⟨h, readyOK_nil _⟩
 
+theorem timerCallback_post (s : St) (c : Bool) (h : Good s) :
+    Good (timerCallback s c).1 ∧ ReadyOK (timerCallback s c).1 (timerCallback s c).2 := by
+  unfold timerCallback
+  split
+  · exact ⟨h, readyOK_nil _⟩
+  · obtain ⟨i1, i2, _, i4, _, _, i7, _⟩ := increment_frame s
+    simp only
+    split
+    · next hinc => exact good_requestConnection _ (wf_congr _ _ h.wf i1 i2) (fresh_increment _ h.pl hinc)
+    · exact ⟨⟨wf_congr _ _ h.wf i1 i2, pl_congr _ _ h.pl i4 i7⟩, readyOK_nil _⟩
+
 theorem timerFire_post (s : St) (h : Good s) :
     Good (timerFire s).1 ∧ ReadyOK (timerFire s).1 (timerFire s).2 := by
   unfold timerFire
   split
   · exact ⟨h, readyOK_nil _⟩
-  · have hg1 : Good { s with timer := false } := ⟨wf_congr s _ h.wf rfl rfl, pl_congr s _ h.pl rfl (Nat.le_refl _)⟩
-    obtain ⟨i1, i2, _, i4, _, _, i7, _⟩ := increment_frame { s with timer := false }
-    simp only
-    split
-    · next hinc => exact good_requestConnection _ (wf_congr _ _ hg1.wf i1 i2) (fresh_increment _ hg1.pl hinc)
-    · exact ⟨⟨wf_congr _ _ hg1.wf i1 i2, pl_congr _ _ hg1.pl i4 i7⟩, readyOK_nil _⟩
+  · exact timerCallback_post _ false ⟨wf_congr s _ h.wf rfl rfl, pl_congr s _ h.pl rfl (Nat.le_refl _)⟩
+
+theorem lateFire_post (s : St) (h : Good s) :
+    Good (lateFire s).1 ∧ ReadyOK (lateFire s).1 (lateFire s).2 := by
+  unfold lateFire
+  split
+  · exact ⟨h, readyOK_nil _⟩
+  · exact timerCallback_post _ true ⟨wf_congr s _ h.wf rfl rfl, pl_congr s _ h.pl rfl (Nat.le_refl _)⟩
 
 theorem close_post (s : St) (h : Good s) : Good (close s).1 ∧ ReadyOK (close s).1 (close s).2 := by
   simp only [close, closeSubConns, cancelTimer]
@@ -778,6 +791,7 @@ theorem step_post (s : St) (op : Op) (h : Good s) (hok : opOk s op = true) :
     simp only [opOk, hsd, Option.all_some, Bool.and_eq_true, beq_iff_eq] at hok
     exact hok.2
   | tick => exact timerFire_post s h
+  | late => exact lateFire_post s h
   | exitIdle => exact exitIdle_post s h
   | pick => exact pick_post s h
   | close => exact close_post s h
@@ -970,8 +984,8 @@ theorem requestLoop_connects (fuel : Nat) (s : St) (ev : List Ev) (id : Nat)
         · exact absurd h (hnc id)
         · right; right
           rw [schedule_eq]
-          refine ⟨by simp [fl, fi], r.2.1, hm, h.symm, ?_⟩
-          simp [fa, fi, hcur', haddr]
+          refine ⟨by simp [cancelTimer, fl, fi], r.2.1, hm, h.symm, ?_⟩
+          simp [cancelTimer, fa, fi, hcur', haddr]
       | connecting =>
         simp only [hraw] at h ⊢
         rcases List.mem_append.mp h with h | h
